@@ -21,6 +21,9 @@ var DegenerateSchemas = []string{
 	`{"required":["a","a"]}`, `{"enum":[1,1]}`, `{"enum":[null]}`, `{"enum":[[]]}`, `{"enum":[{}]}`, `{"readOnly":true}`, `{"discriminator":"x"}`, `{"x-nullable":true,"type":"string"}`,
 	`{"default":1,"type":"string"}`, `{"id":"http://example.com/s"}`, `{"title":"t","description":"d","example":[1]}`,
 	`{"properties":{"a":{"default":5}},"required":["a"]}`, `{"properties":{"":{"type":"integer"}},"required":[""]}`, `{"properties":{"a.b":{"type":"integer"}}}`,
+	// members named like schema keywords (the Swagger-specific object checks look at the last path segments)
+	`{"properties":{"default":{"type":"object"},"properties":{"type":"object"},"example":{},"examples":{"type":"object"},"items":{},"type":{}}}`,
+	`{"properties":{"properties":{"properties":{"properties":{"type":"object"}}}}}`, `{"additionalProperties":{"properties":{"default":{}}}}`,
 	`{"oneOf":[{},{}]}`, `{"anyOf":[{"enum":[]}]}`, `{"allOf":[{"not":{}}]}`, `{"oneOf":[{"multipleOf":0}]}`,
 	`{"minProperties":1,"type":"array"}`, `{"minItems":1,"type":"object"}`, `{"minLength":1,"type":"integer"}`, `{"minimum":1,"type":"string"}`,
 	// unresolvable references: the documented panic (at construction or lazily) is allowed
@@ -42,5 +45,6 @@ var DegenerateInstances = []string{
 	`null`, `true`, `false`, `0`, `-0.0`, `1`, `1.5`, `-1`, `1e308`, `-1e308`, `5e-324`, `9007199254740993`, `18446744073709551616`, `-9223372036854775809`, `0.1`, `1E5`,
 	`123456789012345678901234567890`, `1e400`, `""`, `"a"`, `"\u0000"`, `"2020-01-01"`, `"é日本"`, `"` + strings.Repeat("x", 5000) + `"`,
 	`[]`, `[1]`, `[1,"a",null]`, `[null]`, `[1,1]`, nest("[", "]", "1", 30), `{}`, `{"a":1}`, `{"a":null}`, `{"":1}`, `{"a.b":1}`, `{"a":"x","b":[1]}`,
-	nest(`{"a":`, "}", "1", 30), `[{"a":[{"a":[]}]}]`, `{"a":{"a":{}}}`, `[[],[]]`, `{"a":1,"b":2,"c":3}`,
+	nest(`{"a":`, "}", "1", 30), `{"default":{},"properties":{"a":1},"example":{"items":[]},"examples":{"x":{}},"items":{"type":"x"},"type":{}}`,
+	`{"properties":{"properties":{"properties":{"items":1}}}}`, `{"k":{"default":{"items":{}}}}`, `{"items":[],"type":"array"}`, `{"items":{}}`, `[{"a":[{"a":[]}]}]`, `{"a":{"a":{}}}`, `[[],[]]`, `{"a":1,"b":2,"c":3}`,
 }
